@@ -374,9 +374,21 @@ CLAIMED = {
              "consumed -- any fuel at least as long as the input gives the same result; the two outer loops make at most |text|+1 "
              "iterations), and the insertion recursion depth is at most 128. The hosts-file part is the hosts subsystem's theorem. "
              "Correspondence: random Unicode, grammar-aware mutations, 127/128-label names, 20 KB (quick) / 1 MB (thorough) tokens "
-             "and lines, each case run by the real parser in its own 2 MiB-stack thread under a watchdog.",
-        note="That the model has ALL of Rust's panic sites is established by reading and by the stream, not by proof.",
-        design="5/C17", technique="Coq proof over executable model + model/impl correspondence (extraction)"),
+             "and lines, each case run by the real parser in its own 2 MiB-stack thread under a watchdog. "
+             "Hosts-file part (extra hook): Hosts::deserialise on the same kind of per-case 2 MiB thread for the C14 corpus, random "
+             "Unicode, mutated hosts files, NULs, lone CRs, one line of 10^4..10^5 names, 1 MB names / comments / white space / "
+             "address tokens, 10^5 lines; compared with the extracted hosts model where that is feasible (the model is quadratic; "
+             "about 3 s of model time per case in the quick tier) and with the python reading of hosts(5) beyond. "
+             "Loader part (extra hook): the real resolved::fs::load_zone_configuration, per-case 2 MiB thread, on bad files written "
+             "to disk -- texts the parser models reject, with 2/3/4-byte characters at every distance 0..24 (quick) after / before "
+             "the offending character and around earlier harmless occurrences in comments, unbalanced parentheses / quotes, "
+             "binary garbage, empty files, directories in place of files, missing files: the result is None (or a configuration "
+             "for empty files) as the config model says, never Panic / Hang / death of the driver.",
+        note="That the model has ALL of Rust's panic sites is established by reading and by the stream, not by proof. The hosts "
+             "and loader parts are differential / crash testing of the real code, not proof; stack use is observed on the harness "
+             "build (opt-level 1).",
+        design="5/C17", technique="Coq proof over executable model + model/impl correspondence (extraction) + crash testing of "
+                                  "Hosts::deserialise and load_zone_configuration on 2 MiB threads"),
     "C12": dict(
         text="Theorems about the Gallina model of load_zone_configuration / get_files_from_dir (file system as data: explicit "
              "files, directory listings; a file = what Zone::deserialise / Hosts::deserialise return), Hosts::merge, From<Hosts> for "
